@@ -4,7 +4,7 @@ import random
 
 import numpy as np
 
-from .. import env, files, oracles, reads
+from .. import env, files, monitors, oracles, reads
 
 ID, TITLE, LEVEL = 'C02', 'access-path coherence', 'exploration'
 RULE = ('case = one SGZ file (every fixture under test_data; files written by the harness from the specification '
@@ -91,7 +91,16 @@ def run_case(case, ctx):
                             else 'general'))
     strata.add('version:%d.%d.%d' % sp.version[:3])
     nops = case['nops']
-    with SgzReader(path) as r:
+    # a third of the files are read through a handle whose seeks are slow when they come from pool threads (network file system):
+    # nothing changes for a reader that serialises its positioned reads on the one handle it owns
+    import zlib
+    slow = zlib.crc32(case['id'].encode()) % 3 == 0
+    mf = None
+    if slow:
+        mf = monitors.MonFile(path)
+        mf.seek_delay = 0.0002
+        strata.add('slow-seek-handle')
+    with SgzReader(mf if slow else path) as r:
         if sp.is2d:
             nT, nZ = V.shape
             ops = reads.ops_2d(nT, nZ, sp.bs, rng, nops)
@@ -225,7 +234,7 @@ def run_case(case, ctx):
                 d = reads.same(f.trace[t], V[t])
                 if d:
                     bad.append({'sig': 'emulator.trace[i]:2d-mismatch', 'detail': d})
-    return {'violations': bad, 'counters': {'reads_compared': n, 'files': 1}, 'strata': sorted(strata),
+    return {'violations': bad, 'counters': {'reads_compared': n, 'files': 1, 'slow_worker_seeks': mf.worker_seeks if mf is not None else 0}, 'strata': sorted(strata),
             'key': '%s|%s|%s|%s|%s' % (fam, sp.rate, sp.bs, sp.shape, sp.version),
             'nontrivial': n >= 20 and int(np.prod(sp.padded)) > 4 ** len(sp.padded)}
 
@@ -281,4 +290,6 @@ def finalize(tier, cases, results, counters, strata):
             reasons.append('required stratum not hit: ' + s)
     if counters.get('reads_compared', 0) == 0:
         reasons.append('no read was compared')
+    if counters.get('slow_worker_seeks', 0) == 0:
+        reasons.append('no positioned read was issued from a pool thread through the slow-seek handle')
     return {}, reasons
